@@ -264,10 +264,12 @@ func init() {
 			c17("H_reflect_int", nil), c17("H_reflect_int64", nil), c17("H_reflect_float", nil), c17("H_reflect_bool", nil),
 			c17("H_reflect_str", n(0)), c17("H_reflect_str", n(1)), c17("H_reflect_str", n(2)), c17("H_reflect_str", n(3)),
 			c17("H_reflect_arity", nil), c17("H_reflect_nocrash", nil),
+			c17("H_reflect_sized", nil), c17("H_reflect_float_to_int", nil), c17("H_reflect_unsigned_result", nil),
+			c17("H_reflect_method", n(0)), c17("H_reflect_method", n(1)), c17("H_reflect_method", n(2)),
 		},
-		Rule:        rule + "; script-side payloads are full-width symbolic ints/doubles/bools and fully symbolic byte strings (incl. non-UTF-8) of the stated length; the reflective path is driven through a real parsed script call",
-		Assumptions: []string{"reflect is modelled at contract level (TypeOf/ValueOf/Kind/NumIn/In/Call with the documented assignability panic/Convert/Int/Float/String/Bool)", "runtime.Caller returns a fixed location"},
-		Outside:     []string{"convertTypeAlias (reflection on named types) and struct methods via reflect_class.go", "arity 3, 64 KiB strings, std/system generated wrappers (all funnel through ConvertFromIndex)"},
+		Rule:        rule + "; script-side payloads are full-width symbolic ints/doubles/bools and fully symbolic byte strings (incl. non-UTF-8) of the stated length; the reflective path is driven through a real parsed script call; H_reflect_sized: int8/int16/int32/uint8/uint32/uint64 parameters accept exactly the representable values of a full-range symbolic int; H_reflect_float_to_int: a symbolic double passed to an int parameter; H_reflect_method: the methods of a registered struct (ReflectClass / ReflectMethod) for int64, float64, string, bool, int8 and arity 2",
+		Assumptions: []string{"reflect is modelled at contract level (TypeOf/ValueOf/Kind/Bits/NumIn/In/NumMethod/Method/Call with the documented assignability panic/Convert/Int/Uint/Float/String/Bool/IsZero/New/Interface)", "runtime.Caller returns a fixed location"},
+		Outside:     []string{"struct fields set through the reflective constructor (FieldByName/Set*), float32 parameters with symbolic values", "arity 3, 64 KiB strings, std/system generated wrappers (all funnel through ConvertFromIndex)"},
 	})
 
 	c01 := func(fn string, p map[string]int, tier string, reach ...string) RunDef {
